@@ -19,7 +19,7 @@ CFGS = [dict(), dict(rep="always"), dict(rep="never"), dict(min=2, max=2, rep="n
 FILES = {
     "line": [b"a\n{\nb\n}\n(\nc\n)\nd\n", b"h\nDDBEGIN\n{\na\n}\nb\nDDEND\nt\n", b"a\r\n{\rb\r\n}\n\x0bc\r"],
     "char": [b"a{b}(c)d", b"h\nDDBEGIN\n{ab}c\nDDEND\nt", b"a\r\nb\rc"],
-    "symbol": [b"f(a){b;c};g[1]=2;\n"],
+    "symbol": [b"f(a){b;c};g[1]=2;\n", b"h\n// DDBEGIN\nf(a);g\nb;c\n// DDEND\nt\n", b"// DDBEGIN\r\na;b\rc;d\r\n// DDEND"],
     "jsstr": [b"x = 'a{b}c' + \"(d)\\x41\";\ny = 'zz';\n"],
     "attrs": [b"<a b=\"{\" c='}' d=e f><g h='(' i=\")\">text</g>\n"],
 }
@@ -59,6 +59,10 @@ def one(ctx, name, cfg, kind, f, decider, do_model=True):
         ctx.evaluations += 1
     if run.error:
         ctx.fail("internal-error", f"{name}: {run.error}", case)
+    if run.dump_diff:
+        k, shown, want = run.dump_diff
+        ctx.fail("not-a-deletion", f"{name}: test {k} was shown {shown!r}, but the candidate's prefix + atoms + suffix are {want!r}: "
+                 "bytes were added or altered on the way to the file", case)
     for a in run.atts:
         if not is_deletion(f, a["cand"]):
             ctx.fail("not-a-deletion", f"{name}: proposal {a['desc']!r} is parts={a['cand'][1]!r} flags={enc_bools(a['cand'][2])} "
